@@ -149,7 +149,7 @@ func main() {
 		Plan: func(tier string, seed int64) []kit.Batch {
 			nb, n, reqs := 16, 40, 120
 			if tier == "thorough" {
-				nb, n, reqs = 48, 1500, 300
+				nb, n, reqs = 48, 600, 300
 			}
 			var bs []kit.Batch
 			for i := 0; i < nb; i++ {
